@@ -283,21 +283,22 @@ func main() {
 		ns    []int
 		class string
 		box   v3.Vec // non-cubic sampling box (zero: the cube of edge size)
+		at    v3.Vec // the shape and its sampling volume are moved here (most shapes sit at the origin)
 	}
 	std := vlib.Pick(c, []int{4, 8, 11, 16}, []int{4, 5, 8, 11, 13, 16, 24})
 	shapes := []shp{
-		{"sphere r=1", m3(sdf.Sphere3D(1)), 3, std, "smooth", v3.Vec{}},
-		{"sphere r=0.7 in 2.8 (lattice points on the surface)", m3(sdf.Sphere3D(0.7)), 2.8, []int{8, 16}, "on-lattice", v3.Vec{}},
-		{"box 2x1.5x1", m3(sdf.Box3D(v3.Vec{X: 2, Y: 1.5, Z: 1}, 0)), 3, std, "sharp", v3.Vec{}},
-		{"rounded box", m3(sdf.Box3D(v3.Vec{X: 2, Y: 1.5, Z: 1}, 0.25)), 3, std, "smooth", v3.Vec{}},
-		{"box rotated 30 about (1,1,1)", sdf.Transform3D(m3(sdf.Box3D(v3.Vec{X: 1.5, Y: 1.5, Z: 1.5}, 0)), sdf.Rotate3d(v3.Vec{X: 1, Y: 1, Z: 1}.Normalize(), sdf.DtoR(30))), 3.4, std, "rotated", v3.Vec{}},
-		{"cylinder", m3(sdf.Cylinder3D(2, 0.8, 0)), 3, std, "sharp", v3.Vec{}},
-		{"cone", m3(sdf.Cone3D(2, 0.9, 0.3, 0)), 3, std, "sharp", v3.Vec{}},
-		{"union sphere+box", sdf.Union3D(m3(sdf.Sphere3D(0.8)), sdf.Transform3D(m3(sdf.Box3D(v3.Vec{X: 1, Y: 1, Z: 1}, 0)), sdf.Translate3d(v3.Vec{X: 0.6}))), 3.4, std, "csg", v3.Vec{}},
-		{"box minus cylinder", sdf.Difference3D(m3(sdf.Box3D(v3.Vec{X: 2, Y: 2, Z: 1}, 0)), m3(sdf.Cylinder3D(3, 0.5, 0))), 3, std, "csg", v3.Vec{}},
-		{"cube 0.6 in 1.6 (faces on lattice points, cell 0.1)", m3(sdf.Box3D(v3.Vec{X: 0.6, Y: 0.6, Z: 0.6}, 0)), 1.6, []int{16}, "on-lattice", v3.Vec{}},
-		{"cube 1.2 in 2.4 (faces on lattice points)", m3(sdf.Box3D(v3.Vec{X: 1.2, Y: 1.2, Z: 1.2}, 0)), 2.4, []int{8, 16}, "on-lattice", v3.Vec{}},
-		{"cube 1.8 in 3.2 (faces on lattice points)", m3(sdf.Box3D(v3.Vec{X: 1.8, Y: 1.8, Z: 1.8}, 0)), 3.2, []int{16, 32}, "on-lattice", v3.Vec{}},
+		{"sphere r=1", m3(sdf.Sphere3D(1)), 3, std, "smooth", v3.Vec{}, v3.Vec{}},
+		{"sphere r=0.7 in 2.8 (lattice points on the surface)", m3(sdf.Sphere3D(0.7)), 2.8, []int{8, 16}, "on-lattice", v3.Vec{}, v3.Vec{}},
+		{"box 2x1.5x1", m3(sdf.Box3D(v3.Vec{X: 2, Y: 1.5, Z: 1}, 0)), 3, std, "sharp", v3.Vec{}, v3.Vec{}},
+		{"rounded box", m3(sdf.Box3D(v3.Vec{X: 2, Y: 1.5, Z: 1}, 0.25)), 3, std, "smooth", v3.Vec{}, v3.Vec{}},
+		{"box rotated 30 about (1,1,1)", sdf.Transform3D(m3(sdf.Box3D(v3.Vec{X: 1.5, Y: 1.5, Z: 1.5}, 0)), sdf.Rotate3d(v3.Vec{X: 1, Y: 1, Z: 1}.Normalize(), sdf.DtoR(30))), 3.4, std, "rotated", v3.Vec{}, v3.Vec{}},
+		{"cylinder", m3(sdf.Cylinder3D(2, 0.8, 0)), 3, std, "sharp", v3.Vec{}, v3.Vec{}},
+		{"cone", m3(sdf.Cone3D(2, 0.9, 0.3, 0)), 3, std, "sharp", v3.Vec{}, v3.Vec{}},
+		{"union sphere+box", sdf.Union3D(m3(sdf.Sphere3D(0.8)), sdf.Transform3D(m3(sdf.Box3D(v3.Vec{X: 1, Y: 1, Z: 1}, 0)), sdf.Translate3d(v3.Vec{X: 0.6}))), 3.4, std, "csg", v3.Vec{}, v3.Vec{}},
+		{"box minus cylinder", sdf.Difference3D(m3(sdf.Box3D(v3.Vec{X: 2, Y: 2, Z: 1}, 0)), m3(sdf.Cylinder3D(3, 0.5, 0))), 3, std, "csg", v3.Vec{}, v3.Vec{}},
+		{"cube 0.6 in 1.6 (faces on lattice points, cell 0.1)", m3(sdf.Box3D(v3.Vec{X: 0.6, Y: 0.6, Z: 0.6}, 0)), 1.6, []int{16}, "on-lattice", v3.Vec{}, v3.Vec{}},
+		{"cube 1.2 in 2.4 (faces on lattice points)", m3(sdf.Box3D(v3.Vec{X: 1.2, Y: 1.2, Z: 1.2}, 0)), 2.4, []int{8, 16}, "on-lattice", v3.Vec{}, v3.Vec{}},
+		{"cube 1.8 in 3.2 (faces on lattice points)", m3(sdf.Box3D(v3.Vec{X: 1.8, Y: 1.8, Z: 1.8}, 0)), 3.2, []int{16, 32}, "on-lattice", v3.Vec{}, v3.Vec{}},
 	}
 	// non-cubic sampling boxes (the octree of V1 is cubic, the sampled volume is not)
 	rcyl := m3(sdf.Cylinder3D(4, 1, 0.25))
@@ -314,8 +315,18 @@ func main() {
 		nc.class = "non-cubic-box"
 		shapes = append(shapes, nc)
 	}
+	// CSG solids with concave sharp curved edges, at the origin and away from it on different axes (the vertex
+	// clamping compares each coordinate with the bounds of its own axis; added after seed C19-9)
+	notch := sdf.Difference3D(m3(sdf.Box3D(v3.Vec{X: 2, Y: 2, Z: 2}, 0)), sph(1.25, v3.Vec{X: 1}))
+	notchY := sdf.Difference3D(m3(sdf.Box3D(v3.Vec{X: 2, Y: 2, Z: 2}, 0)), sph(1.25, v3.Vec{Y: -1}))
+	for _, at := range []v3.Vec{{}, {Y: 3}, {X: -2, Y: 1, Z: 4}, {X: 5, Z: -3}, {X: -4, Y: -4, Z: -4}} {
+		for k, sh := range []sdf.SDF3{notch, notchY, sdf.Union3D(m3(sdf.Sphere3D(0.8)), sdf.Transform3D(m3(sdf.Box3D(v3.Vec{X: 1, Y: 1, Z: 1}, 0)), sdf.Translate3d(v3.Vec{X: 0.6})))} {
+			nm := []string{"cube 2 minus sphere r=1.25 on its +x face", "cube 2 minus sphere r=1.25 on its -y face", "union sphere+box"}[k]
+			shapes = append(shapes, shp{name: fmt.Sprintf("%s at %v", nm, at), s: sdf.Transform3D(sh, sdf.Translate3d(at)), size: 2.8, ns: []int{8, 16}, class: "csg-off-centre", at: at})
+		}
+	}
 	for _, sh := range []v3.Vec{{X: -0.2}, {X: 0.2}, {Z: -0.25}, {Y: 0.25}, {X: -0.25, Y: -0.1, Z: -0.05}, {X: 0.25, Y: 0.1, Z: 0.05}} {
-		shapes = append(shapes, shp{fmt.Sprintf("crescent: unit sphere minus copy shifted by %v", sh), sdf.Difference3D(m3(sdf.Sphere3D(1)), sph(1, sh)), 2.5, []int{8, 11, 16}, "crescent", v3.Vec{}})
+		shapes = append(shapes, shp{fmt.Sprintf("crescent: unit sphere minus copy shifted by %v", sh), sdf.Difference3D(m3(sdf.Sphere3D(1)), sph(1, sh)), 2.5, []int{8, 11, 16}, "crescent", v3.Vec{}, v3.Vec{}})
 	}
 	type job struct {
 		sh shp
@@ -332,7 +343,7 @@ func main() {
 	}
 	states += c.ParFor(len(jobs), func(i int) {
 		j := jobs[i]
-		s := boxed{j.sh.s.Evaluate, cube(v3.Vec{}, j.sh.size)}
+		s := boxed{j.sh.s.Evaluate, cube(j.sh.at, j.sh.size)}
 		if j.sh.box != (v3.Vec{}) {
 			s.bb = sdf.Box3{Min: j.sh.box.MulScalar(-0.5), Max: j.sh.box.MulScalar(0.5)}
 		}
